@@ -114,6 +114,21 @@ func c15NextGeneration(p *load.Program, r *oblig.Report) {
 			slow = an.CalleeName(hit.(*ssa.Call).Common()) + " at " + p.Pos(hit.Pos()) + " runs before gen.close()"
 		}
 	}
+	// every subscribed topic is watched, also one this member got no partition of (a topic that does not exist yet
+	// has none): the watchers are started from the configured topics, not from the assignment
+	nW, okW, foundW := 0, true, ""
+	an.EachInstr(fn, func(ins ssa.Instruction) {
+		c, ok := ins.(*ssa.Call)
+		if !ok || !calleeNamed(&c.Call, "Generation", "partitionWatcher") {
+			return
+		}
+		nW++
+		foundW = clean(an.ShapeCanon(c.Call.Args[len(c.Call.Args)-1]))
+		if !strings.Contains(foundW, ".config.Topics[") {
+			okW = false
+		}
+	})
+	r.Check(nW > 0 && okW, rule, "nextGeneration → a partition watcher is started for every configured topic", pos, "for _, topic := range cg.config.Topics { gen.partitionWatcher(…, topic) }", "watched: "+foundW)
 	r.Check(slow == "", rule, "nextGeneration → the generation is closed first when the group is closed or the generation is done", pos, "case <-cg.done: gen.close(); … (no coordinator request before it)", slow)
 	// the generation sent is the one that is closed: same alloc
 	var genAlloc ssa.Value
